@@ -192,7 +192,7 @@ where D: DecisionDiagram<State = TState> + Default, C: Cache<State = TState> + D
         None => &dom_empty,
     };
     let mut out = Outcome::default();
-    let pop_bound = if sc.parallel { 0 } else { 20_000 };
+    let pop_bound = if sc.parallel { 0 } else { 5_000 };
     let mut f_simple; let mut f_nodup;
     let (fstats, ferrs);
     macro_rules! run_solver { ($fringe:expr) => {{
@@ -279,7 +279,12 @@ pub fn judge(sc: &Scenario, out: &Outcome) -> Vec<Violation> {
     // --- termination / crash -------------------------------------------------
     if let Some(p) = &out.panic {
         if p.contains("SIM-STEP-BOUND") { add(term_props(), "no-termination", p.clone()); }
-        else { add(term_props(), "panic", format!("maximize() panicked: {p}")); }
+        else {
+            // a crash is a failure to terminate properly (C04 / C01) and, for an uninterrupted parallel run, also a failure to report the optimum (C03)
+            let mut props = term_props();
+            if sc.parallel && !out.fired { props.push(s("C03")); }
+            add(props, "panic", format!("maximize() panicked: {p}"));
+        }
     }
     if let Some(rep) = &out.sched {
         if rep.stats.worker_panicked && out.panic.is_none() { add(vec![s("C04")], "panic", s("a worker thread panicked")); }
